@@ -4,7 +4,7 @@ import os
 import re
 
 from vlib import mirutil
-from vlib.facts import walk, peel, place_path, pat_variants, pat_alternatives, CheckError, REPO, uncond_before, sp_before, conditional_ancestors
+from vlib.facts import walk, peel, place_path, pat_variants, pat_alternatives, CheckError, REPO, uncond_before, sp_before, conditional_ancestors, lca, path_to
 from vlib.report import RuleResult
 from rules.nopanic import snippet
 
@@ -130,6 +130,36 @@ def param_kinds(F):
                             changed = True
     _PK_CACHE[id(F)] = kinds
     return kinds
+
+
+def encoder_roles(F):
+    """fn path → 'ENC' (passes its operator parameter to wasm_encoder::Function::instruction without fixing it) or
+    'FIXENC' (applies fix_op_id_mapping to the operator(s) it is given and then encodes them, on every path)."""
+    roles = {}
+    for g in F.fns:
+        if g.get("body") is None:
+            continue
+        op_params = [pm for pm in g.get("params", []) if "Operator" in (pm.get("ty") or "")]
+        if not op_params:
+            continue
+        sinks = [c for c in walk(g["body"]) if c.get("k") == "MethodCall" and (c.get("inst") or "").endswith("Function::instruction")]
+        if sinks and not any(x.get("k") == "Call" and (x.get("callee") or "").endswith("fix_op_id_mapping") for x in walk(g["body"])):
+            roles[g["path"]] = "ENC"
+    changed = True
+    while changed:
+        changed = False
+        for g in F.fns:
+            if g.get("body") is None or g["path"] in roles:
+                continue
+            op_params = [pm for pm in g.get("params", []) if "Operator" in (pm.get("ty") or "")]
+            if not op_params:
+                continue
+            encs = [c for c in walk(g["body"]) if (c.get("k") == "Call" and roles.get(c.get("callee")) == "ENC") or (c.get("k") == "MethodCall" and (c.get("inst") or "").endswith("Function::instruction"))]
+            fixes = [c for c in walk(g["body"]) if c.get("k") == "Call" and (c.get("callee") or "").endswith("fix_op_id_mapping")]
+            if encs and fixes and all(any(uncond_before(g["body"], f_, e_)[0] for f_ in fixes) for e_ in encs):
+                roles[g["path"]] = "FIXENC"
+                changed = True
+    return roles
 
 
 def mapping_locals(fn, F=None):
@@ -304,8 +334,27 @@ def emit_mapped(F, kinds=KINDS, names=False):
                     gets = [g for g in walk(asg["rhs"]) if g.get("k") == "MethodCall" and g["method"] == "get"]
                     if gets and sp_before(asg, c):
                         assigned = True
+            # shape B: `let idx = match export.kind { Func => *func_map.get(..), .. }; exports.export(.., idx)`
+            idx_from_dispatch = False
+            a2_ = peel(c["args"][2])
+            if a2_.get("k") == "Path" and a2_.get("res", {}).get("r") == "local":
+                for st in walk(body):
+                    if st.get("k") == "Let" and st["pat"].get("hid") == a2_["res"]["hid"] and st.get("init") is em:
+                        idx_from_dispatch = True
+            elif any(x is em for x in walk(c["args"][2])):
+                idx_from_dispatch = True
             for variant, need in kind_of_variant.items():
                 if need not in kinds:
+                    continue
+                if idx_from_dispatch:
+                    arm_ = next((a for a in em["arms"] if (ek, variant) in pat_variants(a["pat"])[0]), None)
+                    got_ = mapping_lookups(arm_["body"], maps) if arm_ else set()
+                    ok = got_ == {need}
+                    r.ob(ok, {"sink": "export " + variant + " (index computed by the kind dispatch)", "index_mapped_through": sorted(got_)})
+                    if not ok:
+                        r.violate("%s | export %s" % (fn["path"], variant), F.loc(fn, c),
+                                  "exported %s index is emitted %s: after an edit that shifts the %s index space the export designates a different %s" % (
+                                      variant, "through the %s map" % sorted(got_) if got_ else "raw (export.index)", need, variant.lower()))
                     continue
                 ok = sel_hid is not None and assigned and arm_kind.get(variant) == {need}
                 r.ob(ok, {"sink": "export " + variant + " (dispatch hoisted out of the sink)", "map_selected": sorted(arm_kind.get(variant) or [])})
@@ -318,6 +367,8 @@ def emit_mapped(F, kinds=KINDS, names=False):
         for n in walk(body):
             if n.get("k") == "Assign" and (place_path(n["lhs"]) or "") == "self.start":
                 rhs = peel(n["rhs"])
+                if "func" in mapping_lookups(n["rhs"], maps):
+                    ok = True   # e.g. `self.start = self.start.and_then(|s| func_mapping.get(..) ..)`
                 if rhs.get("k") == "Path" and rhs["res"].get("r") == "local":
                     hid = rhs["res"]["hid"]
                     for st in walk(body):
@@ -433,33 +484,35 @@ def emit_mapped(F, kinds=KINDS, names=False):
                     r.ob(ok, {"sink": "active data memory index", "mapped_through": sorted(got)})
                     if not ok:
                         r.violate("%s | data memory index" % fn["path"], F.loc(fn, c), "active data segment memory index is not remapped through the memory map")
-    # 6. code: every `encode(..)`/instruction sink is preceded by fix_op_id_mapping on the same operand
+    # 6. code: every operator that reaches wasm_encoder::Function::instruction has had fix_op_id_mapping applied on every
+    #    path.  Helpers are classified by what they do to their operator parameter, wherever they live and whatever they are
+    #    called:  ENC = encodes it (calls Function::instruction on it),  FIXENC = fixes it and then encodes it.
+    roles = encoder_roles(F)
     enc_calls = []
-    for g in [fn] + [x for x in F.fns if x["path"].startswith(fn["path"] + "::") and x.get("body")]:
+    for g in F.fns:
+        if g.get("body") is None:
+            continue
         for c in walk(g["body"]):
-            if c.get("k") == "MethodCall" and (c.get("inst") or "").endswith("Function::instruction"):
+            if c.get("k") == "Call" and roles.get(c.get("callee")) == "ENC" and c["args"]:
                 enc_calls.append((g, c))
-    r.count("instruction_sinks", len(enc_calls))
-    for g, c in enc_calls:
+    n_inst = sum(1 for v in roles.values() if v == "ENC")
+    r.count("instruction_sinks", n_inst)
+    for h, cc in enc_calls:
+        if roles.get(h["path"]) == "FIXENC":
+            n_sinks += 1
+            r.ob(True, {"sink": "instruction via %s inside %s (fixes before encoding)" % (cc["callee"].split("::")[-1], h["name"])})
+            continue
         n_sinks += 1
-        # the operand param of g
-        callers = []
-        for h in [fn] + [x for x in F.fns if x["path"].startswith(fn["path"] + "::") and x.get("body")]:
-            for cc in walk(h["body"]):
-                if cc.get("k") == "Call" and (cc.get("callee") or "") == g["path"]:
-                    callers.append((h, cc))
-        for h, cc in callers:
-            opnd = place_path(cc["args"][0]) or "?"
-            root = opnd.split(".")[0]
-            # a fix_op_id_mapping call on the same root variable earlier in h
-            fixes = [x for x in walk(h["body"]) if x.get("k") == "Call" and (x.get("callee") or "").endswith("fix_op_id_mapping")
-                     and (place_path(x["args"][0]) or "").split(".")[0] == root
-                     and uncond_before(h["body"], x, cc)[0]]
-            ok = bool(fixes)
-            r.ob(ok, {"sink": "instruction via %s(%s)" % (g["name"], opnd), "fix_op_id_mapping_before": ok})
-            if not ok:
-                r.violate("%s | code %s(%s)" % (h["path"], g["name"], snippet(repo, h["file"], cc["args"][0]["sp"])), F.loc(h, cc),
-                          "an instruction is encoded without fix_op_id_mapping having been applied to it")
+        opnd = place_path(cc["args"][0]) or "?"
+        root = opnd.split(".")[0]
+        fixes = [x for x in walk(h["body"]) if x.get("k") == "Call" and (x.get("callee") or "").endswith("fix_op_id_mapping")
+                 and (place_path(x["args"][0]) or "").split(".")[0] == root
+                 and uncond_before(h["body"], x, cc)[0]]
+        ok = bool(fixes)
+        r.ob(ok, {"sink": "instruction via %s(%s)" % (cc["callee"].split("::")[-1], opnd), "fix_op_id_mapping_before": ok})
+        if not ok:
+            r.violate("%s | code %s(%s)" % (h["path"], "encode", snippet(repo, h["file"], cc["args"][0]["sp"])), F.loc(h, cc),
+                      "an instruction is encoded without fix_op_id_mapping having been applied to it")
     # 7. index-keyed name maps stored at parse
     if names:
         for c in walk(body):
@@ -580,9 +633,50 @@ def miss_loud(F):
                         verdict = "silent:" + m["method"]
                     break
             if verdict is None:
+                # `let Some(n) = map.get(k) else { panic!(..) };`
+                for st in walk(fn["body"]):
+                    if st.get("k") == "Let" and "else" in st and any(x is g for x in walk(st.get("init") or {})):
+                        els = st["else"]
+                        div = els.get("ty") == "!" or any(x.get("ty") == "!" for x in walk(els) if x.get("k") in ("Call", "MethodCall", "Ret", "Break", "Continue"))
+                        verdict = "diverges" if div and not any(x.get("k") in ("Continue", "Break") for x in walk(els)) else "silent:let-else"
+                # `map.get(k).copied().unwrap()` / `.expect(..)` / `*map.get(k).unwrap()` through value-preserving adaptors
+                cur_ = g
+                for _ in range(4):
+                    nxt = None
+                    for m in walk(fn["body"]):
+                        if m.get("k") == "MethodCall" and m.get("recv") is cur_:
+                            nxt = m
+                            break
+                    if nxt is None:
+                        break
+                    if nxt["method"] in ("unwrap", "expect"):
+                        verdict = "diverges"
+                        break
+                    if nxt["method"] in ("copied", "cloned", "as_ref", "map"):
+                        cur_ = nxt
+                        continue
+                    if nxt["method"] in ("unwrap_or_else", "ok_or_else", "ok_or"):
+                        # diverging closure / converted to an error that is propagated
+                        if any(x.get("ty") == "!" for a_ in nxt["args"] for x in walk(a_)):
+                            verdict = "diverges"
+                        break
+                    break
+            if verdict is None:
                 verdict = "silent:unknown-consumer"
             key = "%s | %s.get" % (fn["path"], kind_of_expr(g["recv"], maps))
-            exception = verdict == "silent:warn" and "start" in snippet(os.environ.get("ORCA_ANALYSED_REPO", REPO), fn["file"], g["sp"])
+            # reviewed exception, by data flow: the looked-up index is stored only into `self.start` (an Option): a missing
+            # entry makes it None, the start section is then not emitted at all — no stale index can reach the output
+            exception = False
+            if verdict.startswith("silent"):
+                for a_ in walk(fn["body"]):
+                    if a_.get("k") == "Assign" and (place_path(a_["lhs"]) or "") == "self.start":
+                        if any(x is g for x in walk(a_["rhs"])):
+                            exception = True
+                        rhs_ = peel(a_["rhs"])
+                        if rhs_.get("k") == "Path" and rhs_.get("res", {}).get("r") == "local":
+                            for st in walk(fn["body"]):
+                                if st.get("k") == "Let" and st["pat"].get("hid") == rhs_["res"]["hid"] and any(x is g for x in walk(st.get("init") or {})):
+                                    exception = True
             ok = verdict == "diverges" or exception
             r.ob(ok, {"lookup": snippet(os.environ.get("ORCA_ANALYSED_REPO", REPO), fn["file"], g["sp"]), "fn": fn["path"], "on_missing": verdict})
             if not ok:
@@ -627,6 +721,12 @@ def del_guard(F):
                         rec(v, g)
 
             rec(fn["body"], False)
+            if not guarded:
+                # early-exit idiom: `if x.deleted { continue; }` earlier in the same loop body
+                for n_ in walk(fn["body"]):
+                    if n_.get("k") == "If" and (place_path(peel(n_["cond"])) or "").endswith(".deleted") and any(x.get("k") == "Continue" for x in walk(n_["then"])) and "else" not in n_:
+                        if uncond_before(fn["body"], n_, c)[0] and lca(fn["body"], n_, c) is not None and not any(a_.get("k") == "Match" and a_.get("src") == "ForLoopDesugar" and not any(y is n_ for y in walk(a_)) for a_, _ in (path_to(fn["body"], c) or []) if isinstance(a_, dict) and any(y is c for y in walk(a_)) and not any(y is n_ for y in walk(a_))):
+                            guarded = True
             r.ob(guarded, {"sink": label, "under_not_deleted": guarded})
             if not guarded:
                 r.violate("%s | %s" % (fn["path"], label), F.loc(fn, c), "%ss are emitted without testing `.deleted`: a deleted %s would still appear in the output" % (label, label))
@@ -1138,52 +1238,102 @@ TRUNC = ("take", "skip", "step_by", "take_while", "skip_while", "rev", "nth", "l
 FILTERS = ("filter", "filter_map", "skip", "skip_while", "take_while", "step_by", "flat_map", "flatten")
 
 
+KIND_PRED = {"is_function": "FunctionID", "is_global": "GlobalID", "is_memory": "MemoryID", "is_table": "TableID", "is_tag": "TagID"}
+KIND_TYPEREF = {"Func": "FunctionID", "Global": "GlobalID", "Memory": "MemoryID", "Table": "TableID", "Tag": "TagID"}
+
+
+def _filter_kind(call):
+    """if `call` is `.filter(|x| x.is_function())`-like (a pure *kind* filter over imports), the ID type of that kind"""
+    for a_ in call.get("args", []):
+        for x in walk(a_):
+            if x.get("k") == "MethodCall" and x["method"] in KIND_PRED:
+                return KIND_PRED[x["method"]]
+            if x.get("k") in ("TupleStruct", "Struct", "Path") and (x.get("adt") or x.get("res", {}).get("adt") or "") == "wasmparser::TypeRef":
+                v = x.get("variant") or x.get("res", {}).get("variant")
+                if v in KIND_TYPEREF:
+                    return KIND_TYPEREF[v]
+        # `.filter(Import::is_function)` (path to the predicate)
+        if a_.get("k") == "Path" and (a_.get("res", {}).get("path") or "").split("::")[-1] in KIND_PRED:
+            return KIND_PRED[a_["res"]["path"].split("::")[-1]]
+    return None
+
+
 def full_iter(F):
-    """Zero-expected rule over the whole crate: the IR's vectors are walked completely and in order wherever they are
-    emitted, reported or turned into iterator metadata.  (a) no truncating/reordering adaptor (take/skip/step_by/
-    take_while/skip_while/rev/nth/last) on an iterator over IR state; (b) `enumerate()` is never applied after a filtering
-    adaptor when its index is used as a position/id (the index then counts only the survivors)."""
+    """Zero-expected rule over the whole crate.  (a) A walk over IR state that is consumed element by element (for-loop,
+    collect, for_each, map …) is not truncated or reordered (take/skip/step_by/take_while/skip_while/rev/last); counting or
+    testing a prefix (`take_while(..).count()`, `.any()`) and generators (`repeat(x).take(n)`, ranges) are not walks.
+    (b) A position computed after a filter (`filter(..).enumerate()/position()/nth(k)`) is an ordinal among the survivors:
+    that is right when the filter selects one import *kind* and the ordinal is used in that kind's index space (the n-th
+    function import is function n), and wrong for any other filter (e.g. `!deleted`) or any other index space."""
     r = RuleResult("R-FULL-ITER",
-                   "no iterator over IR state is truncated or reordered (take/skip/step_by/take_while/skip_while/rev/nth/last), and no enumerate() follows a filtering adaptor: every element is visited once, in order, and enumerate indices are positions")
+                   "no element-wise walk over IR state is truncated or reordered, and a position taken after a filter is used only as the per-kind ordinal of a pure kind filter (never after a `deleted`-style filter, never as an index into the unfiltered collection)")
     n_chains = 0
+    ORDER_FREE = ("count", "any", "all", "sum", "min", "max", "is_empty", "product")
     for fn in F.fns:
         if fn.get("body") is None or (fn.get("impl_trait") or "").startswith(("std::", "core::")):
             continue
+        # ids constructed in this function (to see which index space an ordinal ends up in)
+        id_ctors = {((x.get("fres") or {}).get("adt") or "").split("::")[-1] for x in walk(fn["body"]) if x.get("k") == "Call" and ((x.get("fres") or {}).get("adt") or "").startswith("ir::id::")}
+        ret_ty = fn.get("ret") or ""
+        outer_of = {}
+        for x in walk(fn["body"]):
+            if x.get("k") == "MethodCall":
+                outer_of[id(peel(x["recv"]))] = x
         for c in walk(fn["body"]):
             if not (c.get("k") == "MethodCall" and ("iter::Iterator::" in (c.get("callee") or "") or "iter::traits" in (c.get("callee") or ""))):
                 continue
-            # collect the adaptor chain below c
-            chain = []
+            chain_nodes = []
             cur = c
             while isinstance(cur, dict) and cur.get("k") == "MethodCall":
-                chain.append(cur["method"])
+                chain_nodes.append(cur)
                 cur = peel(cur["recv"])
-            chain.reverse()
-            # only judge the outermost call of a chain once
+            chain_nodes.reverse()
+            chain = [x["method"] for x in chain_nodes]
             n_chains += 1
             m = c["method"]
             tys = (c.get("ty") or "") + " " + (c.get("recv_ty") or "")
             over_ir = "ir::" in tys or "wasmparser::Operator" in tys
             if not over_ir:
                 continue
-            if m in TRUNC:
-                # rooted at IR state? (self.* / a parameter / a local that is not a fresh range)
-                root = cur
-                while isinstance(root, dict) and root.get("k") in ("Field", "Index", "Unary", "AddrOf"):
-                    root = peel(root.get("base") or root.get("a"))
-                is_range = isinstance(root, dict) and root.get("k") == "Struct" and "ops::Range" in (root.get("adt") or "")
-                if is_range:
+            root = cur
+            while isinstance(root, dict) and root.get("k") in ("Field", "Index", "Unary", "AddrOf"):
+                root = peel(root.get("base") or root.get("a"))
+            generator = (isinstance(root, dict) and root.get("k") == "Struct" and "ops::Range" in (root.get("adt") or "")) or \
+                (isinstance(root, dict) and root.get("k") == "Call" and (root.get("callee") or "").split("::")[-1] in ("repeat", "repeat_n", "once", "repeat_with", "successors", "from_fn", "empty"))
+            if m in ("take", "skip", "step_by", "take_while", "skip_while", "rev", "last") and not generator:
+                # what consumes the truncated iterator?
+                term = c
+                while id(term) in outer_of and "iter::" in (outer_of[id(term)].get("callee") or ""):
+                    term = outer_of[id(term)]
+                if term["method"] in ORDER_FREE:
                     continue
                 r.ob(False, {"fn": fn["path"], "chain": ".".join(chain)})
                 r.violate("%s | %s" % (fn["path"], ".".join(chain)), F.loc(fn, c),
-                          "iterator chain `.%s()` truncates or reorders a walk over IR state: elements outside the window are silently not visited/emitted/reported" % ".".join(chain))
-            if m in ("enumerate", "position", "rposition"):
-                before = chain[:-1]
-                bad = [a for a in before if a in FILTERS]
-                if bad:
+                          "iterator chain `.%s()` truncates or reorders an element-wise walk over IR state: elements outside the window are silently not visited/emitted/reported" % ".".join(chain))
+            if m in ("enumerate", "position", "rposition", "nth"):
+                filters = [x for x in chain_nodes[:-1] if x["method"] in FILTERS]
+                if filters:
+                    kinds = [_filter_kind(x) for x in filters]
+                    pure_kind = all(k is not None for k in kinds) and len(set(kinds)) == 1
+                    if pure_kind:
+                        # ordinal among one kind: fine unless it is turned into another index space here
+                        other = {t for t in id_ctors if t and t != kinds[0] and t in ("ImportsID",)}
+                        uses_as_imports = "ImportsID" in other and any(
+                            (x.get("fres") or {}).get("adt", "").endswith("ImportsID") and any(y is c or (y.get("k") == "Path" and False) for y in walk(x)) for x in walk(fn["body"]) if x.get("k") == "Call")
+                        if not uses_as_imports:
+                            r.ob(True, {"fn": fn["path"], "chain": ".".join(chain), "per_kind_ordinal_of": kinds[0]})
+                            continue
                     r.ob(False, {"fn": fn["path"], "chain": ".".join(chain)})
                     r.violate("%s | %s" % (fn["path"], ".".join(chain)), F.loc(fn, c),
-                              "%s() is applied after `%s`: its index counts only the surviving elements, not positions in the collection (ids/indices derived from it shift as soon as one element is filtered out)" % (m, bad[0]))
+                              "%s() is applied after `%s`: its index counts only the surviving elements, not positions in the collection (ids/indices derived from it shift as soon as one element is filtered out)" % (m, filters[0]["method"]))
+                elif m == "nth" and "module_imports::Import" in tys and not generator:
+                    # the k-th entry of the *whole* import list is addressed by an ImportsID, never by a per-kind index
+                    a_ty = " ".join((x.get("ty") or "") for x in walk(c["args"][0])) if c["args"] else ""
+                    ok = "ImportsID" in a_ty
+                    r.ob(ok, {"fn": fn["path"], "chain": ".".join(chain), "nth_argument_is_ImportsID": ok})
+                    if not ok:
+                        r.violate("%s | %s" % (fn["path"], ".".join(chain)), F.loc(fn, c),
+                                  "the n-th entry of the whole import list is selected with an index that is not an ImportsID: a per-kind index (function/global/memory index) names a different import as soon as an import of another kind precedes")
     r.ob(True, {"iterator_adaptor_calls_scanned": n_chains})
     r.count("iterator_calls_scanned", n_chains)
     return r
@@ -1236,8 +1386,19 @@ def encode_writes(F):
     r.analysed += sorted(seen)[:30]
     r.count("encode_reachable_fns", len(seen))
     r.count("write_patterns", len(pats))
+    vanished = [k for k in rows if k not in pats]
     for key, (f, n) in sorted(pats.items()):
         ok = key in rows
+        if not ok:
+            # a field/ADT rename shows up as one reviewed pattern vanishing and one unknown pattern with the same operation
+            # appearing: report it as information, not as a new mutation
+            op_ = key.rsplit(".", 1)[-1] if key.endswith("()") else "="
+            twin = [k for k in vanished if (k.rsplit(".", 1)[-1] if k.endswith("()") else "=") == op_]
+            if twin:
+                vanished.remove(twin[0])
+                r.ob(True, {"pattern": key, "treated_as_rename_of": twin[0]})
+                r.info.append("write pattern %s is new and %s vanished: treated as a rename (re-review tables/encode_writes.json)" % (key, twin[0]))
+                continue
         r.ob(ok, {"pattern": key, "class": rows.get(key, {}).get("class")})
         if not ok:
             r.violate("%s | unreviewed write %s" % (fn["path"], key), F.loc(f, n),
